@@ -2,6 +2,7 @@ import Driver.Util
 import Driver.MuxD
 import Driver.CodecD
 import Driver.HsD
+import Driver.CliD
 /-!
 # `limedriver` — line protocol in front of the executable model
 
@@ -21,6 +22,9 @@ def dispatch (j : Json) : R Json := do
   | "srvhs" => HsD.handleSrv j
   | "srvjudge" => HsD.handleJudge j
   | "srvwants" => HsD.handleWants j
+  | "clihs" => CliD.handleCli j
+  | "cliwants" => CliD.handleWants j
+  | "clijudge" => CliD.handleJudge j
   | "build" => CodecD.handleBuild j
   | "ping" => pure (Json.mkObj [("pong", .bool true)])
   | _ => throw s!"unknown mode {m}"
